@@ -1,4 +1,32 @@
-import PeptVerif.Model.Proto
-/-! driver for C18 (placeholder: replies bad-op to everything until the model is written) -/
-def step (_line : String) : String := "bad-op"
-def main : IO Unit := Proto.runDriver step
+import PeptVerif.Model.AbsMassWire
+/-! driver for C18: condense_to_mass_mods over the abstract mass environment -/
+open Pept Pept.Static Pept.AbsMass Pept.AbsWire Pept.CondenseMass Proto
+
+def withAnn (s : String) (f : Annotation → String) : String :=
+  match Wire.parseAnnotation? s with
+  | some a => f a
+  | none => "bad-op"
+
+def step (line : String) : String :=
+  match splitTab line with
+  | ["mods_of", a] => withAnn a fun a => ",".intercalate ((modsOf a).map Wire.showVal)
+  | ["literal", a] => withAnn a fun a => if rulesLiteral a then "1" else "0"
+  | ["round", x, p] =>
+    match parseRat? x, p.toNat? with
+    | some x, some p => String.ofList (decText (roundNum x p) p)
+    | _, _ => "bad-op"
+  | ["condense_mass", a, plus, p, res, mu, adj, aac, mr, ion, chg, em, flg] =>
+    match parseEnv? res mu adj aac mr ion chg em flg, parseBool? plus, p.toNat? with
+    | some E, some plus, some p => withAnn a fun a => showExcept Wire.esc (condenseToMass E a plus p)
+    | _, _, _ => "bad-op"
+  | ["condense_ann", a, p, res, mu, adj, aac, mr, ion, chg, em, flg] =>
+    match parseEnv? res mu adj aac mr ion chg em flg, p.toNat? with
+    | some E, some p => withAnn a fun a => showExcept Wire.showAnnotation (condenseToMassAnn E a p)
+    | _, _ => "bad-op"
+  | ["mass", a, res, mu, adj, aac, mr, ion, chg, em, flg] =>
+    match parseEnv? res mu adj aac mr ion chg em flg with
+    | some E => withAnn a fun a => showExcept showRat (massOf E a)
+    | none => "bad-op"
+  | _ => "bad-op"
+
+def main : IO Unit := runDriver step
